@@ -186,6 +186,41 @@ impl Property for C12 {
                         }
                     }
                 }
+                // unusual but representable hash-algorithm lists: the id is that of the key's own description and survives JSON
+                for list in [vec![], vec!["sha256"], vec!["sha512", "sha256"], vec!["md5", "x"]] {
+                    let d = describe(key);
+                    let want = reference_key_id_with_list(&d, Some(&list));
+                    let doc = json!({"keytype": d.keytype, "scheme": d.scheme, "keyid_hash_algorithms": list, "keyval": {"public": d.public}});
+                    if let Ok(k) = serde_json::from_value::<PublicKey>(doc) {
+                        o.evals += 1;
+                        if kid(&k) != want {
+                            o.fail(format!("C12/keyid/{}/json-list-{}", key.kind().split('-').next().unwrap_or(""), list.len()), format!("key_id = {} for keyid_hash_algorithms {:?}", kid(&k), list), format!("reference formula = {}", want));
+                        }
+                        let j = serde_json::to_value(&k).expect("ser key");
+                        match serde_json::from_value::<PublicKey>(j.clone()) {
+                            Ok(k2) if k2 == k && k2.key_id() == k.key_id() => {}
+                            other => o.fail(format!("C12/json-roundtrip/list-{}", list.len()), format!("{:?} after JSON round trip of {}", other.map(|x| kid(&x)), j), "equal key and id"),
+                        }
+                    }
+                }
+                // RSA: the key id is intrinsic, whatever line ends / trailing newline the PEM text in the document uses
+                if let KeySpec::Rsa { .. } = key {
+                    let d = describe(key);
+                    let want = reference_key_id_of(&d);
+                    for (name, text) in [
+                        ("crlf", d.public.replace('\n', "\r\n")),
+                        ("trailing-newline", format!("{}\n", d.public)),
+                        ("leading-blank-line", format!("\n{}", d.public)),
+                    ] {
+                        let doc = json!({"keytype": d.keytype, "scheme": d.scheme, "keyid_hash_algorithms": ["sha256", "sha512"], "keyval": {"public": text}});
+                        if let Ok(k) = serde_json::from_value::<PublicKey>(doc) {
+                            o.evals += 1;
+                            if kid(&k) != want {
+                                o.fail(format!("C12/keyid/rsa/pem-formatting-{}", name), format!("key_id = {}", kid(&k)), format!("intrinsic id {}", want));
+                            }
+                        }
+                    }
+                }
                 for ob in &obs {
                     let mut d = describe(key);
                     d.hash_algs = ob.list;
